@@ -4,7 +4,7 @@ SPEC = {
     "translators": ["gen_snapshot", "gen_astarms"],
     "bins": ["c06"],
     "model_targets": ["Compiler/SnapshotCheck.vo"],
-    "proof_targets": ["Compiler/SnapshotProofs.vo", "Compiler/AccountingC06.vo", "Compiler/SuppressProofs.vo"],
+    "proof_targets": ["Compiler/SnapshotProofs.vo", "Compiler/AccountingC06.vo", "Compiler/SuppressProofs.vo", "Compiler/IncludesProofs.vo"],
     "assumptions": [
         "compiler fields are abstracted to vectors / pattern-id maps / counters / opaque histories; a failing rule performs an arbitrary sequence of the field mutations that occur syntactically in the fallible region of c_rule (found transitively by the translator)",
         "hand classification of the 40 Compiler fields (Restored / ToleratedJunk pools / Diagnostics / PerRuleScratch / Config) and of the two fields handed out as `&mut` that are append-only (re_code, symbol_table): checked for exhaustiveness by Coq, validated by K",
@@ -17,7 +17,7 @@ SPEC = {
 
 RULE = ("[A.., bad, B..] vs [A.., B..]: 0-3 good rules before, 0-2 after (text/hex/regexp patterns, anchored and counted uses, patterns shared verbatim), "
         "bad fails at syntax / duplicate rule / unknown identifier / type / modifier / unused pattern / regexp-matches-empty / invalid regexp / slow-pattern-as-error "
-        "after 0-3 registered patterns of the same rule; compared: digest per compiler field, scan dumps (normal and fast-scan) on 3 buffers, errors(), build(), the warnings() about every other source (origins attribute them), acceptance of a probe source that names loop variables of the failed rule; a third of the good and of the bad rules contain an `or` of `matches` operands on global variables (regexp sets: the sets of a failed rule stay behind as junk and later sets must still be found); rules carry global/private flags and tags and refer to earlier rules of their namespace (the failing rule too); with an ignored module in play an earlier rule may be ignored and the next one skipped because it depends on it; a probe source names the failed rule (it must stay unknown); too-large regexps among the failure kinds; half of the bad sources carry `// suppress:` comments over a long line, some fail two or three scopes deep; "
+        "after 0-3 registered patterns of the same rule; compared: digest per compiler field, scan dumps (normal and fast-scan) on 3 buffers, errors(), build(), the warnings() about every other source (origins attribute them), acceptance of a probe source that names loop variables of the failed rule; a third of the good and of the bad rules contain an `or` of `matches` operands on global variables (regexp sets: the sets of a failed rule stay behind as junk and later sets must still be found); rules carry global/private flags and tags and refer to earlier rules of their namespace (the failing rule too); with an ignored module in play an earlier rule may be ignored and the next one skipped because it depends on it; a probe source names the failed rule (it must stay unknown); too-large regexps among the failure kinds; a quarter of the failing sources hold a second rule with a syntax error (both errors must be recorded); in a fifth of the cases the failing rule lives in an included file and a later source includes a file whose name also exists next to the failed file (include stack); half of the bad sources carry `// suppress:` comments over a long line, some fail two or three scopes deep; "
         "each case in a child process (a crash of the scanner kills only the child). Non-trivial: the bad source was rejected; distinct by (position, kind, bad text).")
 
 
